@@ -37,7 +37,7 @@ from .errors import (
     MemoryLimitError,
     TimeLimitError,
 )
-from .regex import RegexTimeoutError
+from .regex import RegexTimeoutError, RegExpError, RegexStackOverflow
 
 
 def js_round(x: float, ndigits: int = 0) -> float:
@@ -288,6 +288,14 @@ class VM:
         # Execute opcode - wrap in try/except to catch Python JS exceptions
         try:
             self._execute_opcode(op, arg, frame)
+        except RegExpError as e:
+            # Invalid pattern (literal, RegExp(), string pattern): SyntaxError
+            self._handle_python_exception(
+                "SyntaxError", f"Invalid regular expression: {e}"
+            )
+        except RegexStackOverflow as e:
+            # Backtrack stack budget of the regex engine exhausted
+            self._handle_python_exception("RangeError", str(e))
         except JSTypeError as e:
             # Convert Python JSTypeError to JavaScript TypeError
             self._handle_python_exception("TypeError", str(e))
